@@ -653,7 +653,8 @@ class World:
 
     def sleep(self, d):
         self.sleep_log.append((self.mono, d))
-        self.advance(d)
+        extra, self.oversleep = getattr(self, "oversleep", 0), 0      # a sleep may return late (one-shot)
+        self.advance(d + extra)
 
     def advance(self, d):
         end = self.mono + d
